@@ -30,7 +30,7 @@ type TryStage struct {
 func NewTryStage(e *Env, i int, kind string) *TryStage {
 	s := &TryStage{e: e, I: i, Kind: kind}
 	if stageCanFail(kind) {
-		tok := ErrName(E[i])
+		tok := ErrName(e.Err(i))
 		if kind == "ApOption" || kind == "ApOptionFunc" {
 			tok = "ErrOptionEmpty"
 		}
@@ -44,7 +44,7 @@ func NewTryStage(e *Env, i int, kind string) *TryStage {
 func (s *TryStage) Val() string { return "v" + Itoa(s.I) }
 func (s *TryStage) M() fp.Try[string] {
 	if s.fail {
-		return fp.Failure[string](E[s.I])
+		return FailedTry[string](s.e, s.I)
 	}
 	return fp.Success(s.Val())
 }
